@@ -15,7 +15,7 @@ RULE = ('pxssh.login() (real code, spawned through the simulated pty seam) again
         'in a pexpect.ExceptionPexpect subclass within the sum of the configured timeouts; never another exception type, never a '
         'hang. Virtual time makes the 10 s / 30 s timeouts free. Added later: ssh_key given as a file path, sessions whose local '
         'terminal does not echo, type-ahead (two commands outstanding) with the first unique prompt aimed at a 2000-character read '
-        'boundary of the queued output, a command that hangs. Ninth round: the time at which the client typed each prompt-setting attempt is recorded (the known finding D23 needs a server silent for more than the fixed 10 s). Non-trivial: script of >= 2 steps; distinct by trace digest')
+        'boundary of the queued output, a command that hangs. Ninth round: the time at which the client typed each prompt-setting attempt is recorded (the known finding D23 needs a server silent for more than the fixed 10 s). Tenth round: after a failed login the application tries again on the same object (refused by the unchanged tree: not judged; a tree that accepts it is held to the transcript rules for the new dialogue). Non-trivial: script of >= 2 steps; distinct by trace digest')
 
 ASSUME = ['the ssh client and remote shell are a scripted stub (transcript-recording); real ssh is not exercised',
           'the stub disables terminal echo while it reads a password, as ssh does']
